@@ -9,3 +9,5 @@ open PedVerif.Retry
 #print axioms retry_sleeps_eq
 #print axioms retry_foreign_not_retried
 #print axioms retry_source_shape
+#print axioms cfg_handler
+#print axioms retryFor_spec
